@@ -20,11 +20,13 @@ func c09multi(c *h.Ctx, idx int, r *h.Rand) {
 	defer os.RemoveAll(dir)
 	real, _ := filepath.EvalSymlinks(dir)
 	trace := real + "/trace"
-	names := []string{"P1", "P2", "P3", "P4", "N1", "N2", "N3"}
+	// (M0_OUTPUT is also the name under which taskctl publishes the output of task m0 to later tasks: a published
+	// output sits at the bottom, like the parent environment; a context that defines the name wins)
+	names := []string{"P1", "P2", "P3", "P4", "N1", "N2", "N3", "M0_OUTPUT"}
 	parent := map[string]string{"P1": "parent-P1", "P2": "parent-P2", "P3": "parent-P3", "P4": "parent-P4"}
 	ctxEnv := map[string]string{}
 	for _, n := range names {
-		if r.Chance(25) {
+		if r.Chance(25) || (n == "M0_OUTPUT" && r.Chance(50)) {
 			ctxEnv[n] = "ctx-" + n
 		}
 	}
